@@ -295,6 +295,34 @@ def check(facts, rep, tier, cfg):
     for v in sub.violations:
         if sel(v["key"]):
             rep.bad("C02.R9", v["key"], v["where"], v["msg"])
+    # ---- R10 a write that reports Pending has queued nothing of the caller's buffer
+    rep.rule("C02.R10", "exactly once under back-pressure: a write entry point that takes the caller's buffer never returns Poll::Pending after it has "
+                        "queued part of that buffer (the caller re-submits the same bytes after Pending, so they would be sent twice)")
+    k10 = 0
+    for b, bi, t, tr, msg in queue_sends(facts, crate):
+        if not (ctors_in(msg) & {"new_push", "new_push_owned", "new_push_vectored"}):
+            continue
+        rt = b.locals[0]["s"]
+        if "Poll<" not in rt:
+            continue
+        # the payload comes from a parameter of this function (a caller-owned buffer), not from state the function keeps (the bridge)
+        from_param = any(x.kind == "param" and x[1] >= 2 and ("[u8]" in (x[3] or "") or "IoSlice" in (x[3] or "")) for x in walk(msg))
+        if not from_param:
+            continue
+        k10 += 1
+        where = "%s (%s)" % (loc_str(t["loc"]), b.path)
+        key = "no-pending-after-queueing/%s" % b.path.split("::{")[0]
+        pend = [x for x in b.reachable_from(bi) if x != bi or True for st in b.blocks[x]["stmts"]
+                if st["k"] == "Assign" and st["lhs"]["l"] == 0 and not st["lhs"].get("p") and st["rv"]["k"] == "Aggregate"
+                and st["rv"]["agg"].get("variant") == "Pending"]
+        pend = [x for x in pend if x in b.reachable_from(b.succ[bi][0]) or x == b.succ[bi][0]] if b.succ[bi] else []
+        if pend:
+            rep.bad("C02.R10", key, "%s (%s)" % (loc_str(b.term(pend[0])["loc"]), b.path),
+                    "after queueing a Push built from the caller's buffer (at %s) this write can still return Poll::Pending: the AsyncWrite contract "
+                    "makes the caller submit the same buffer again, so the part already queued is delivered twice" % loc_str(t["loc"]))
+        else:
+            rep.ok("C02.R10", key, where, "no Pending return is reachable after the Push is queued")
+    rep.floor("C02.R10", "write entry points that queue a caller-owned buffer", k10, 2)
     rep.rule("C02.S7", "who-may: the functions that touch the critical resources behind this property are those of the reference tree (flow table, closed flag, per-stream / datagram / outbound queues, last-pong timestamp, client id maps, shared TLS identity)")
     import whomay
     whomay.check(facts, rep, "C02.S7", "C02")
